@@ -54,5 +54,6 @@ pub mod verif {
     pub use super::preprocessor_cache::{
         preprocessor_cache_entry_hash_key, PreprocessorCacheEntry,
     };
+    pub use super::rust::verif_parse_arguments as verif_rust_parse_arguments;
     pub use super::rust::Rust;
 }
